@@ -190,6 +190,7 @@ def run(ctx, cases_override=None):
         lambda: expect_violation(ctx, "MC_MpqHashTable_codeE", "Action property OpRefines is violated"),          # 8390629
         lambda: expect_violation(ctx, "MC_MpqHashTable_codeG", "Invariant AbsClean is violated"),                 # 22716d7
         lambda: expect_violation(ctx, "MC_MpqHashTable_codeH", "Invariant SessionReadStaleAgrees is violated"),   # 9c6ca29
+        lambda: expect_violation(ctx, "MC_MpqHashTable_codeI", "Invariant CursorBehindImage is violated"),        # hypothetical (seeded s7)
     ]
     # stage A runs concurrently with generation, build and replay; it is joined before the verdict
     import concurrent.futures as cf
